@@ -10,9 +10,9 @@ package walker
 //@ contract walker.Walk (ctx, node, nodeSchema, w) (diags)
 //@   ghost effective after MergeBlockBodySchemas#1 : true
 //@   ghost effSchema after MergeBlockBodySchemas#1 : mergedSchema
-//@   assert before walker.Walk#3 : [C15,C16,name:nested-body-walked-with-its-effective-schema] implies(typeis(nodeSchema, "*schema.BlockSchema") && as(nodeSchema, "*schema.BlockSchema").Body != nil, effective && as(arg2, "*schema.BodySchema") == effSchema)
+//@   assert before walker.Walk#3 : [C15,C16,C07,name:nested-body-walked-with-its-effective-schema] implies(typeis(nodeSchema, "*schema.BlockSchema") && as(nodeSchema, "*schema.BlockSchema").Body != nil, effective && as(arg2, "*schema.BodySchema") == effSchema)
 //@   ghost unresolved after MergeBlockBodySchemas#1 : result == schemahelper.LookupFailed || result == schemahelper.LookupPartiallySuccessful
-//@   assert before walker.Walk#3 : [C15] implies(unresolved, schemacontext.HasUnknownSchema(arg0))
+//@   assert before walker.Walk#3 : [C15,C16,C07] implies(unresolved, schemacontext.HasUnknownSchema(arg0))
 //@   assert before walker.Walk#1 : [C15] implies(!typeis(nodeSchema, "*schema.BodySchema"), schemacontext.HasUnknownSchema(arg0))
 //@   assert before walker.Walk#2 : [C15] implies(!typeis(nodeSchema, "*schema.BodySchema"), schemacontext.HasUnknownSchema(arg0))
 
